@@ -15,6 +15,16 @@ with the model's rdm / expect evaluated on Base/TNExec.dense of the dumped
 state tensors, for site tuples in every order and NON-symmetric operators.
 Oracle (tolerance 1e-8, tests): normalised values of every route x option
 against plain numpy on the dense state; rdm Hermitian / trace / ordering.
+Option cube (stage_option_cube): every API of the cluster / loop-expansion families
+x every documented normalisation mode x backend (exact / compressed) x combine x
+gauges, and every other route, on states whose scale is held in the tensors, in a
+positive / negative / integer `exponent`, or in both.  coq/C13/Options.v models the
+option flow (which of <G>/<1>, <G>, (<G>, <1>) each call returns), the value
+_combine_expansion_expectations computes from region counts, and where the scale is
+held (tensors vs exponent register; normalized="global" must distribute it); tied
+exactly by (i) the class of result every cube call returned, (ii) the register the
+"global" branch hands to the per-term contractions, (iii) check_state_scaled on
+integer-exponent states ((10^k)^2 x the model's values on the tensors).
 """
 
 import itertools
@@ -31,8 +41,13 @@ RULE = (
     "site tuples: 1-3 distinct sites in EVERY order (one pair in both orders per state, random mixed orders, "
     "non-adjacent); operators: non-Hermitian Gaussian-integer matrices and Kronecker products A(x)B of different "
     "one-site factors; every route x option in `routes_exercised`; call forms the docstrings allow (bare single-site "
-    "keys, default gauges=None, shared `info` cache with two operators). Non-trivial: at least one traced site and a "
-    "non-Hermitian operator; distinct = distinct (state, site tuple, route)."
+    "keys, default gauges=None, shared `info` cache with two operators). Option cube: cluster APIs x normalized in "
+    "{True, False, 'return'} x max_bond in {None, untruncating int} x gauges in {none, simple-update}; generalized- / "
+    "simple-loop expansions (single and compute_*) x combine in {prod, sum} x normalized in {True, False, 'prod', 'local', "
+    "'separate', 'global'} x gauges, also with a redundant sub-region in gloops; scale representation of the state in "
+    "{tensors, exponent > 0 (equalize_norms_), exponent < 0, integer exponent with unnormalised tensors} for graphs, rings, "
+    "MPS and PEPS through every route. Non-trivial: at least one traced site and a non-Hermitian operator; distinct = "
+    "distinct (state, site tuple, route)."
 )
 
 TOL = 1e-8
@@ -1593,9 +1608,29 @@ def stage_info_reuse(ctx):
 
 
 def run_coq(ctx, cases, name):
-    failed, errors = ctx.coq_cases(name, HEADER, cases.cases, shard=ctx.n(4, 5), jobs=8)
+    # option-flow / exponent-register correspondence (C13/Options.v): the model's table must predict the class of
+    # result every cube call returned, and the register the "global" branch leaves behind.  All of them travel as ONE
+    # extra case of the same batch (a conjunction); only if it fails are they re-run one by one.
+    oc = [(i + 1, e) for i, e in enumerate(OPT_CASES)]
+    opt_id = len(cases.cases) + 1
+    batch = list(cases.cases)
+    if oc:
+        batch.append((opt_id, "forallb (fun b : bool => b) [" + "; ".join(e for _, e in oc) + "]"))
+    failed, errors = ctx.coq_cases(name, HEADER, batch, shard=ctx.n(4, 5), jobs=ctx.n(10, 8))
     for path, err in errors:
         ctx.broken_obligation("correspondence:" + path.split("/")[-1], err)
+    if oc:
+        ctx.extra["option_flow_cases"] = len(oc)
+        if opt_id not in failed:
+            ctx.traces += len(oc) - 1  # the batch counted the conjunction as one
+        if opt_id in failed:
+            failed = [c for c in failed if c != opt_id]
+            desc = dict(zip(range(1, len(oc) + 1), OPT_CASES.values()))
+            f3, e3 = ctx.coq_cases(name + "_options", HEADER, oc, shard=400, jobs=2)
+            for path, err in e3:
+                ctx.broken_obligation("correspondence:" + path.split("/")[-1], err)
+            for c in f3:
+                ctx.broken_obligation(f"correspondence:option_flow:{dict(oc)[c]}", {"observed": desc[c], "model": dict(oc)[c]})
     # localise: re-run the failing states one site tuple at a time
     loc, lookup = [], {}
     for c in failed:
@@ -1616,17 +1651,6 @@ def run_coq(ctx, cases, name):
         # Gaussian integer, so a mismatch here is between the Coq model and numpy + implementation
         ctx.broken_obligation(f"correspondence:model_vs_impl:{d['state'].get('id')}:{wh}",
                               {"failing_site_tuples": wh, "state": d["state"], "n_values": d["n_values"]})
-    # option-flow / exponent-register correspondence (C13/Options.v): the model's table must predict the class of
-    # result every cube call returned, and the register the "global" branch leaves behind
-    if OPT_CASES:
-        oc = [(i + 1, e) for i, e in enumerate(OPT_CASES)]
-        desc = dict(zip(range(1, len(oc) + 1), OPT_CASES.values()))
-        f3, e3 = ctx.coq_cases(name + "_options", HEADER, oc, shard=400, jobs=2)
-        for path, err in e3:
-            ctx.broken_obligation("correspondence:" + path.split("/")[-1], err)
-        for c in f3:
-            ctx.broken_obligation(f"correspondence:option_flow:{dict(oc)[c]}", {"observed": desc[c], "model": dict(oc)[c]})
-        ctx.extra["option_flow_cases"] = len(oc)
     ctx.extra["coq_cases"] = ctx.extra.get("coq_cases", 0) + len(cases.cases)
     # a passing state case validates every one of its site tuples: count those as the validated traces
     ok = [cid for cid, _ in cases.cases if cid not in set(failed)]
@@ -1666,11 +1690,20 @@ def run(ctx):
         "contraction, canonicalisation, loop-expansion bookkeeping), cotengra, LAPACK; these are covered per route x option "
         "by the correspondence and by the numpy oracle (tolerance 1e-8, a test), not by a theorem",
     ]
+    ctx.trusted_base += [
+        "hand model coq/C13/Options.v (option flow of partial_trace_exact / partial_trace / local_expectation_cluster / "
+        "_combine_expansion_expectations / compute_local_expectation_gloop_expand, and the tensors-vs-exponent scale "
+        "bookkeeping of multiply / distribute_exponent / select without with_exponent); tie = class of result of every "
+        "option-cube call (decided against the dense reference at 1e-8), exponent register observed by rebinding the module "
+        "global _compute_expecs_maybe_in_parallel, exact unnormalised values on integer-exponent states",
+    ]
     ctx.assumptions += [
         "loop / cluster expansions are only claimed when the cluster spans the whole network (autoreduce=False or a ring for "
         "simple loops); boundary contraction with max_bond=4096, cutoff=0 is untruncating on the sizes used",
         "routes taking simple-update gauges describe the state obtained by inserting the gauges on every bond; that state is "
         "the reference for those routes",
+        "TensorNetwork.exponent is part of the state (as in to_dense / norm / the exact routes): the dense reference of a "
+        "state is 10**exponent x the einsum of its tensors",
     ]
     mods = ["Base/Sums.vo", "Base/TN.vo", "Base/TNExec.vo", "C13/Model.vo", "C13/Proofs.vo"]
     import os
